@@ -5,7 +5,7 @@ from typing import Any, Dict, List, Optional, Tuple
 
 from ..facts import AnalysisError, FuncInfo
 from ..report import Check
-from ..symexec import SymExec, freeze, show, Path, Event
+from ..symexec import Closure, closure_paths, SymExec, freeze, show, Path, Event
 from .. import opmodel as om
 from .. import functab
 from .. import ctx as C
@@ -94,6 +94,26 @@ def check(chk: Check) -> None:
                         else 'raw %s %s is not known to be float-free' % (ent.kind, ent.target))
             continue
         paths = [p for p in SymExec(F, fi).run() if p.normal]
-        srcs = sorted({s for p in paths for s in N.float_sources(p.outcome[1])})
+        srcs = {s for p in paths for s in N.float_sources(p.outcome[1])}
+        # decisions taken on the way (comparisons, and the key functions handed to min/max/sorted) decide *which* value is
+        # returned: a float there makes the builtin disagree with the exact order of the operators
+        for p in paths:
+            for c, _, _ in p.assumptions:
+                srcs.update('%s in the test `%s`' % (x, show(c)) for x in N.float_sources(c))
+            for e in p.events:
+                if e.kind != 'call':
+                    continue
+                for a in tuple(e.args) + tuple(v for _, v in e.kwargs):
+                    cb_paths = []
+                    fa = freeze(a)
+                    if isinstance(a, Closure):
+                        cb_paths = closure_paths(F, fi, a)
+                    elif isinstance(fa, tuple) and fa[:2] == ('ref', 'fn') and fa[2] in F.functions:
+                        cb_paths = SymExec(F, F.func(fa[2])).run()
+                    for cp in cb_paths:
+                        if cp.normal:
+                            srcs.update('%s in the key/callback `%s`' % (x, show(fa) if not isinstance(a, Closure) else a.qual)
+                                        for x in N.float_sources(cp.outcome[1]))
+        srcs = sorted(srcs)
         chk.require(not srcs, R2, ent.label, where, 'the result passes through %s' % ', '.join(srcs) if srcs else 'float-free on %d path(s)' % len(paths))
     N.context_untouched(chk, R3)
